@@ -535,7 +535,7 @@ impl Prop for CliOptions {
                 opts.p = Some(1);
                 opts.r = None;
                 opts.c = None;
-                route = Route { stdin: false, ext: String::new(), flag: None, out_file: false, stale_out: false, in_place: false };
+                route = Route { stdin: false, ext: String::new(), flag: None, out_file: false, stale_out: false, in_place: false, dev_stdin: false };
             }
             _ => {
                 opts.method = Some(Method::Full);
